@@ -414,6 +414,12 @@ func init() {
 			{"<%= for (v) in until(6) { %><% if (v == 1) { continue } %><% if (v == 3) { continue } %><%= v %><% } %>", "0245"}, {"<%= for (v) in between(0, 7) { %><%= v %><% if (v < 5) { continue } %>!<% } %>", "12345!6!"},
 			{"<%= for (g) in groupBy(3, [1, 2, 3, 4, 5, 6]) { %><% if (g[0] == 3) { continue } %>[<%= for (x) in g { %><%= x %><% } %>]<% } %>", "[12][56]"},
 			{"<%= for (v) in range(1, 9) { %><% if (v == 2) { continue } %><% if (v == 5) { break } %><%= v %><% } %>", "134"}, {"<%= for (v) in range(1, 4) { %><%= for (w) in until(3) { %><% if (w == 1) { continue } %><%= v %><%= w %>,<% } %><% } %>", "10,12,20,22,30,32,40,42,"},
+			// an iterator held in a variable and consumed by SEVERAL loops: a loop takes from it only what it
+			// visits - after a break the next loop goes on where the first one stopped
+			{"<% let it = range(1, 6) %><%= for (v) in it { %><%= v %><% if (v == 2) { break } %><% } %>|<%= for (v) in it { %><%= v %><% } %>|<%= for (v) in it { %>x<% } %>", "12|3456|"},
+			{"<% let it = groupBy(4, [1, 2, 3, 4, 5, 6, 7]) %><%= for (g) in it { %>[<%= for (x) in g { %><%= x %><% } %>]<% break %><% } %>|<%= for (g) in it { %>[<%= for (x) in g { %><%= x %><% } %>]<% } %>", "[12]|[34][56][7]"},
+			{"<% let it = until(5) %><%= for (a) in it { %><%= a %><%= for (b) in it { %><%= b %><% break %><% } %>,<% } %>", "01,23,4,"},
+			{"<% let it = between(0, 6) %><%= for (v) in it { %><% if (v == 3) { break } %><%= v %><% } %>|<%= for (v) in it { %><%= v %><% } %>", "12|45"},
 		} {
 			c := RCase{Tmpl: t[0]}
 			o := runRender(c)
